@@ -1,5 +1,7 @@
 import GoluaVerif.Audit
 import GoluaVerif.Props.C02
 import GoluaVerif.Props.C02_Bits
+import GoluaVerif.Props.C02_Comp
 #audit_module GoluaVerif.Props.C02
 #audit_module GoluaVerif.Props.C02_Bits
+#audit_module GoluaVerif.Props.C02_Comp
